@@ -3,10 +3,13 @@
    while system/default are max-limited (Root.benign); one such rebuild leaves a permanent
    phantom request (refuted witness below). *)
 From Coq Require Import List ZArith Bool Lia.
-From Verif Require Import Lib.Vec2 C01.Model C01.Spec C01.Root C01.Proofs_Base C01.Proofs_Walk
+From Verif Require Import Lib.VecN C01.Dim2 C01.Model C01.Spec C01.Root C01.Proofs_Base C01.Proofs_Walk
   C01.Proofs_Unique C01.Proofs_Reset C01.Proofs_Main.
 Import ListNotations.
 Open Scope Z_scope.
+
+Section WithDim.
+Context {D : Dim}.
 
 (* ---------- sums ---------- *)
 
@@ -169,9 +172,13 @@ Qed.
 Theorem root_layer_projects h x : x_s (xrun x h) = run (x_s x) h.
 Proof. apply xs_xrun. Qed.
 
+End WithDim.
+
 (* ---------- the rebuild while the default quota is max-limited: refuted ---------- *)
 
-Definition ex_root_pod : pod := mkPod 1 (30, 30) false true false.
+Local Existing Instance D2.
+
+Definition ex_root_pod : pod := mkPod 1 (v2 30 30) false true false.
 Definition ex_root_reset : list op := [ OpPodAdd 2 ex_root_pod; OpReset; OpPodDelete 2 ex_root_pod ].
 
 (* default max (20,20), one bound pod of (30,30) in the default quota: the root holds 20 (the limited
@@ -179,11 +186,11 @@ Definition ex_root_reset : list op := [ OpPodAdd 2 ex_root_pod; OpReset; OpPodDe
    the pod is deleted 10 remain for ever although no pod is left anywhere. The history obeys the
    informer discipline and every quota of the tree stays exact. *)
 Lemma root_reset_refuted :
-  wf_init (1000, 1000) (20, 20) = true /\ wf_history (init (1000, 1000) (20, 20)) ex_root_reset = true /\
-  benign_history (init (1000, 1000) (20, 20)) ex_root_reset = false /\
-  (let x := xrun (xinit (1000, 1000) (20, 20)) ex_root_reset in
+  wf_init (v2 1000 1000) (v2 20 20) = true /\ wf_history (init (v2 1000 1000) (v2 20 20)) ex_root_reset = true /\
+  benign_history (init (v2 1000 1000) (v2 20 20)) ex_root_reset = false /\
+  (let x := xrun (xinit (v2 1000 1000) (v2 20 20)) ex_root_reset in
    state_code (x_s x) = 0 /\ root_code (x_s x) (x_root x) = 15 /\
-   ro_req (x_root x) = (10, 10) /\ ro_req (rc_root (x_s x)) = (0, 0)) /\
-  (let x := xrun (xinit (1000, 1000) (20, 20)) (firstn 2 ex_root_reset) in
-   ro_req (x_root x) = (30, 30) /\ ro_req (rc_root (x_s x)) = (20, 20)).
+   ro_req (x_root x) = (v2 10 10) /\ ro_req (rc_root (x_s x)) = (v2 0 0)) /\
+  (let x := xrun (xinit (v2 1000 1000) (v2 20 20)) (firstn 2 ex_root_reset) in
+   ro_req (x_root x) = (v2 30 30) /\ ro_req (rc_root (x_s x)) = (v2 20 20)).
 Proof. vm_compute. repeat split; reflexivity. Qed.
